@@ -301,15 +301,19 @@ def rule_int(ctx, R, F):
             if len(f['params']) > 1:
                 w1 = (domains.type_info(f['params'][1]['ty']) or (64, False))[0]
                 env[f['params'][1]['id']] = domains.KB.const(w1, b_)
-            r = domains.KBEval(F, env).run_body(f)
+            ev_ = domains.KBEval(F, env)
+            r = ev_.run_body(f)
             v = r.value() if r is not None else None
+            if ev_.ub:
+                bad = (a_, b_, 'undefined: ' + ev_.ub[0], ref[q](a_, b_) & M64)
+                break
             if v is None:
                 raise AnalysisBroken('PORT-INT: %s has a non-canonical body that the evaluator cannot follow (%s)' % (q, where))
             if v & M64 != ref[q](a_, b_) & M64:
                 bad = (a_, b_, v & M64, ref[q](a_, b_) & M64)
                 break
         if bad:
-            R.violation(q, where, expected='%s(%#x, %#x) = %#x' % (q, bad[0], bad[1], bad[3]), found='%#x (evaluating the function body on these operands)' % bad[2])
+            R.violation(q, where, expected='%s(%#x, %#x) = %#x' % (q, bad[0], bad[1], bad[3]), found=('%#x (evaluating the function body on these operands)' % bad[2]) if isinstance(bad[2], int) else bad[2])
         else:
             raise AnalysisBroken('PORT-INT: %s (%s) is not in the canonical form and no counterexample was found on %d boundary operand pairs: its correctness for all operands cannot be decided statically' % (q, where, len(pairs)))
     sm = F.func('smulh')
